@@ -176,6 +176,12 @@ func c19Client(c *Ctx, r *Report, ci *clientInfo, control bool) map[string]bool 
 		rep("R19.3", doRes != nil && describeAV(p.args[0]) == describeAV(doRes), "the parsed frame is do()'s result (the copy of everything read)", describeAV(p.args[0]), "parse-arg", posOfCall(c, p))
 		g := guardOf(h)
 		rep("R19.3", g != nil && g.Dominates(p.instr.Block()) && g != p.instr.Block(), "the BeforeParse guard is evaluated before the parse on every path", "", "beforeparse-order", pos)
+		// the hook announces a parse: it runs only when do() succeeded (a frame exists and the parser
+		// will be called with it)
+		if t, ok := doCall.res.(ATuple); ok && len(t) == 2 {
+			rep("R19.3", h.state.entailsForm(tf.nilness(t[1])), "BeforeParse runs only when the exchange succeeded (do() returned no error), i.e. exactly when the parser runs", truncate(h.state.String(), 200), "beforeparse-on-error", pos)
+			rep("R19.3", p.state.entailsForm(tf.nilness(t[1])), "the parser runs only when the exchange succeeded", truncate(p.state.String(), 200), "parse-on-error", posOfCall(c, p))
+		}
 		transparent(h, "BeforeParse")
 	}
 	return fired
